@@ -38,20 +38,22 @@ structure Inv (s : St) : Prop where
   enterFalse : ∀ t dl, s.pc t = .wEnter dl → s.flag = false
   unlockTrue : ∀ t dl, s.pc t = .wUnlock true dl → s.flag = true
   noStuck : s.flag = true → ∀ u dl, s.pc u = .wBlocked dl → s.m ≠ none ∧ ∀ v, s.m = some v → s.pc v = .setBcast
+  /-- the setter reaches its broadcast with the flag it has just stored (it still holds the mutex) -/
+  bcastTrue : ∀ t, s.pc t = .setBcast → s.flag = true
 
 theorem inv_init (set : Bool) (now spur : Nat) : Inv (init set now spur) := by
   constructor <;> simp [init, holds]
 
 theorem inv_step {s s' : St} {t : Tid} {a : Act Op} (h : Inv s) (hs : step s t a = some s') : Inv s' := by
-  obtain ⟨h1, h0, h2, h3, h4⟩ := h
+  obtain ⟨h1, h0, h2, h3, h4, h5⟩ := h
   cases a with
-  | tick q => simp [step] at hs; subst hs; exact ⟨h1, h0, h2, h3, h4⟩
+  | tick q => simp [step] at hs; subst hs; exact ⟨h1, h0, h2, h3, h4, h5⟩
   | call op =>
     simp only [step] at hs
     split at hs
     · rename_i hidle
       simp at hs; subst hs
-      cases op <;> (refine ⟨?_, ?_, ?_, ?_, ?_⟩ <;> intros <;> grind [upd, holds])
+      cases op <;> (refine ⟨?_, ?_, ?_, ?_, ?_, ?_⟩ <;> intros <;> grind [upd, holds])
     · simp at hs
   | run alt =>
     simp only [step] at hs
@@ -59,7 +61,7 @@ theorem inv_step {s s' : St} {t : Tid} {a : Act Op} (h : Inv s) (hs : step s t a
     all_goals
       try simp only [loopHead, goto, done] at hs
       (repeat' split at hs) <;> simp at hs <;> (try subst hs) <;>
-        (refine ⟨?_, ?_, ?_, ?_, ?_⟩ <;> intros <;> grind [upd, holds])
+        (refine ⟨?_, ?_, ?_, ?_, ?_, ?_⟩ <;> intros <;> grind [upd, holds])
 
 theorem inv_reach {set : Bool} {now spur : Nat} {s : St} (h : Reach set now spur s) : Inv s := by
   induction h with
@@ -99,7 +101,7 @@ theorem hinv_init (set : Bool) (now spur : Nat) : HInv set (init set now spur) :
 
 theorem hinv_step {set0 : Bool} {s s' : St} {t : Tid} {a : Act Op} (hi : Inv s) (h : HInv set0 s)
     (hs : step s t a = some s') : HInv set0 s' := by
-  obtain ⟨i1, i0, i2, i3, i4⟩ := hi
+  obtain ⟨i1, i0, i2, i3, i4, i5⟩ := hi
   obtain ⟨h1, h2, h3, h4, h5⟩ := h
   cases a with
   | tick q =>
